@@ -203,6 +203,9 @@ class VerificationTrailer:
         view = view[8:]
         commands = []
         while True:
+            if len(view) < 4:
+                raise ValueError(f"Failed to unpack {cls.__name__} as no command with SEC_VT_COMMAND_END was found")
+
             cmd = Command.unpack(view)
             commands.append(cmd)
             view = view[4 + len(cmd.value) :]
